@@ -73,6 +73,10 @@ def materialise(case):
         parts, shape = gen.rand_feature_parts(rng, n)
         feats.append({"type": rng.choice(["CDS", "misc_feature", "source"]), "parts": parts, "quals": {"uid": ["u%d" % j], "note": ["n%d" % j]}})
     rec = {"id": "r%d" % case["i"], "seq": seq, "features": feats, "annotations": {"topology": "circular", "molecule_type": "DNA"}}
+    if rng.random() < 0.5:
+        rec["letters"] = {"phred_quality": [rng.randint(0, 60) for _ in range(n)]}
+        if rng.random() < 0.4:
+            rec["letters"]["trace"] = ["t%d" % j for j in range(n)]
     prior = [rng.randint(-2 * n, 2 * n) for _ in range(rng.randint(0, 3))]
     return {"kind": "gen", "rec": rec, "runs": [{"prior": prior, "k": rng.randint(-2 * n, 2 * n)}]}
 
